@@ -47,6 +47,7 @@ func (l *DefaultListener) OnSuccess() {
 			return *(window.AddSample(-1, rtt, int(l.currentMaxInFlight)))
 		},
 	)
+	verifPoint("default.afterFold")
 
 	l.updateLimit(endTime, current)
 }
@@ -67,6 +68,7 @@ func (l *DefaultListener) OnDropped() {
 	_, current := l.limiter.updateAndGetSample(func(window measurements.ImmutableSampleWindow) measurements.ImmutableSampleWindow {
 		return *(window.AddDroppedSample(-1, int(l.currentMaxInFlight)))
 	})
+	verifPoint("default.afterFold")
 
 	l.updateLimit(time.Now().UnixNano(), current)
 }
